@@ -303,7 +303,16 @@ static void purity_monitors(Exec& ex, const Op& op) {
   if (so > 0) violation("global-state", SH->cur_fn, "%ld bytes written to stdout", so);
   if (op.kind == OK_DEPRECATED) ex.stderr_expected = se;
   else if (se != ex.stderr_expected) {
-    violation("global-state", SH->cur_fn, "%ld bytes written to stderr by a non-deprecated call", se - ex.stderr_expected);
+    // the statement exempts deprecation diagnostics: a call that newly announces its deprecation is fine
+    char buf[512];
+    long n = se - ex.stderr_expected;
+    if (n > (long)sizeof buf - 1) n = sizeof buf - 1;
+    ssize_t got = n > 0 ? pread(2, buf, (size_t)n, ex.stderr_expected) : 0;
+    if (got < 0) got = 0;
+    buf[got] = 0;
+    for (ssize_t i = 0; i < got; i++) if (buf[i] >= 'A' && buf[i] <= 'Z') buf[i] = (char)(buf[i] + 32);
+    if (!strstr(buf, "deprecat"))
+      violation("global-state", SH->cur_fn, "%ld bytes written to stderr by a call that is not a deprecation diagnostic", se - ex.stderr_expected);
     ex.stderr_expected = se;
   }
   if (fegetround() != FE_TONEAREST) violation("global-state", SH->cur_fn, "rounding mode changed");
